@@ -60,7 +60,8 @@ impl FInput {
 pub fn float_inputs(seed: u64, count: usize, nmax: usize, dims: &[usize]) -> Vec<FInput> {
     let mut rng = StdRng::seed_from_u64(seed.wrapping_mul(0x9E3779B97F4A7C15) ^ 0xF00D);
     let mut out = vec![];
-    let kinds = ["uniform", "cluster", "nearlattice", "lattice", "tiny", "aniso", "offset", "uniform"];
+    let kinds = ["uniform", "cluster", "nearlattice", "lattice", "tiny", "aniso", "offset", "shell", "aniso", "ring"];
+    let mut aniso_round = 0usize;
     let mut k = 0;
     while out.len() < count {
         let kind = kinds[k % kinds.len()];
@@ -71,7 +72,14 @@ pub fn float_inputs(seed: u64, count: usize, nmax: usize, dims: &[usize]) -> Vec
         let mut width = DVec3::splat(rng.gen_range(0.5..3.0));
         match kind {
             "aniso" => {
-                width = DVec3::new(rng.gen_range(0.1..10.0), rng.gen_range(0.1..10.0), rng.gen_range(0.1..10.0));
+                // cycle through all orderings of (large, medium, small) over the axes, periodic and not
+                let big = rng.gen_range(2.0..10.0);
+                let vals = [big, big * rng.gen_range(0.3..0.5), big * rng.gen_range(0.05..0.15)];
+                let perms = [[0, 1, 2], [0, 2, 1], [1, 0, 2], [1, 2, 0], [2, 0, 1], [2, 1, 0]];
+                let p = perms[aniso_round % 6];
+                width = DVec3::new(vals[p[0]], vals[p[1]], vals[p[2]]);
+                per = (aniso_round / 6) % 2 == 0;
+                aniso_round += 1;
             }
             "offset" => {
                 anchor = DVec3::new(rng.gen_range(-1e4..1e4), rng.gen_range(-1e4..1e4), rng.gen_range(-1e4..1e4));
@@ -79,6 +87,7 @@ pub fn float_inputs(seed: u64, count: usize, nmax: usize, dims: &[usize]) -> Vec
             }
             _ => {}
         }
+        let dim = if kind == "aniso" || kind == "shell" || kind == "ring" { if kind == "ring" && rng.gen_bool(0.3) { 2 } else { 3 } } else { dim };
         let n = match kind {
             "tiny" => rng.gen_range(1..=4),
             _ => rng.gen_range(2..=nmax),
@@ -92,6 +101,36 @@ pub fn float_inputs(seed: u64, count: usize, nmax: usize, dims: &[usize]) -> Vec
                     let u = DVec3::new(rng.gen_range(0.0..1.0), rng.gen_range(0.0..1.0), rng.gen_range(0.0..1.0));
                     let p = if i < (2 * n) / 3 { c + r * (u - 0.5) } else { u };
                     gens.push(anchor + p * width);
+                }
+            }
+            "shell" => {
+                // one generator surrounded by a (jittered) spherical shell: a cell with very many faces and vertices
+                let m = rng.gen_range(40..=90);
+                let c = DVec3::splat(0.5);
+                gens.push(anchor + c * width);
+                let wmin = width.min_element();
+                for i in 0..m {
+                    let z = 1.0 - 2.0 * (i as f64 + 0.5) / m as f64;
+                    let r = (1.0 - z * z).sqrt();
+                    let phi = i as f64 * 2.399963229728653;
+                    let jit = 1.0 + 0.02 * rng.gen_range(-1.0..1.0);
+                    let d = DVec3::new(r * phi.cos(), r * phi.sin(), z) * 0.3 * wmin * jit;
+                    gens.push(anchor + c * width + d);
+                }
+            }
+            "ring" => {
+                // a generator inside a ring of many neighbours (+ one above and below in 3D): a face with many edges
+                let m = rng.gen_range(18..=30);
+                let c = DVec3::splat(0.5);
+                let wmin = width.min_element();
+                gens.push(anchor + c * width);
+                for i in 0..m {
+                    let phi = (i as f64 + rng.gen_range(-0.2..0.2)) * std::f64::consts::TAU / m as f64;
+                    gens.push(anchor + c * width + DVec3::new(phi.cos(), phi.sin(), 0.0) * 0.35 * wmin);
+                }
+                if dim == 3 {
+                    gens.push(anchor + c * width + DVec3::Z * 0.3 * wmin);
+                    gens.push(anchor + c * width - DVec3::Z * 0.3 * wmin);
                 }
             }
             "nearlattice" | "lattice" => {
@@ -147,8 +186,16 @@ fn shift_code(shift: Option<DVec3>, width: DVec3) -> i64 {
     }
 }
 
+/// Quantise to an integer TLC can hold (clamped to +-2^30: a clamped value can only make a relation fail).
+fn qi(x: f64) -> i64 {
+    let v = (x * Q).round();
+    if v.is_nan() {
+        return -(1 << 30);
+    }
+    v.max(-((1i64 << 30) as f64)).min((1i64 << 30) as f64) as i64
+}
 fn q3(v: DVec3, scale: f64) -> [i64; 3] {
-    [(v.x / scale * Q).round() as i64, (v.y / scale * Q).round() as i64, (v.z / scale * Q).round() as i64]
+    [qi(v.x / scale), qi(v.y / scale), qi(v.z / scale)]
 }
 
 fn masks_for(n: usize, rng: &mut StdRng, tier: &str) -> Vec<Option<Vec<bool>>> {
@@ -186,7 +233,7 @@ fn voronoi_record(v: &Voronoi, width: DVec3, scale_area: f64) -> Value {
         .iter()
         .map(|f| {
             json!({"left": f.left(), "right": f.right().map(|r| r as i64).unwrap_or(-1), "s": shift_code(f.shift(), width),
-                   "aq": (f.area() / scale_area * Q).round() as i64,
+                   "aq": qi(f.area() / scale_area),
                    "tok": short(format!("{}{}", hex(f.area()), hex3(f.centroid())))})
         })
         .collect();
@@ -218,7 +265,7 @@ fn voronoi_record(v: &Voronoi, width: DVec3, scale_area: f64) -> Value {
                             if f.left() == i && !(r == i && f.shift().is_none()) { (r as i64 + 1, code) } else { (f.left() as i64 + 1, if code < 0 { -1 } else { 26 - code }) }
                         }
                     };
-                    json!({"o": o, "s": sc, "aq": (f.area() / scale_area * Q).round() as i64})
+                    json!({"o": o, "s": sc, "aq": qi(f.area() / scale_area)})
                 })
                 .collect()
         })
@@ -334,7 +381,7 @@ pub fn record(inp: &FInput, mask: &Option<Vec<bool>>, full_line: bool) -> (Optio
                         "j": hs.right_idx.map(|r| r as i64 + 1).unwrap_or(0),
                         "s": shift_code(hs.shift, width),
                         "hv": hv, "ok": ok,
-                        "aq": (area / scale_area * Q).round() as i64,
+                        "aq": qi(area / scale_area),
                         "cq": q3(cen - anchor, l),
                         "nq": q3(hs.normal(), 1.0),
                         "tok": short(format!("{}{}", hex(area), hex3(cen))),
@@ -343,7 +390,7 @@ pub fn record(inp: &FInput, mask: &Option<Vec<bool>>, full_line: bool) -> (Optio
                 cps.push(Value::Array(planes));
                 let v = &vols[vi];
                 vi += 1;
-                volq.push((v.volume / box_measure * Q).round() as i64);
+                volq.push(qi(v.volume / box_measure).max(-(1 << 27)).min(1 << 27));
                 // the stored cell equals the integral (C13)
                 let dc = &direct.cells()[i];
                 if v.volume.to_bits() != dc.volume().to_bits() || hex3(v.centroid) != hex3(dc.centroid()) {
@@ -506,7 +553,7 @@ pub fn record(inp: &FInput, mask: &Option<Vec<bool>>, full_line: bool) -> (Optio
     if flux.abs() > 1e-9 * flux_abs.max(scale_area) + 50.0 * tl * l.powi(inp.dim as i32 - 2).max(1e-300) * (n as f64) {
         fails.push(TessFail { prop: "C03", what: "antisymmetric flux summed over all cells does not cancel".into(), detail: json!({"flux": flux, "sum_abs": flux_abs}) });
     }
-    let wq: Vec<i64> = (0..3).map(|k| (width[k] / l * Q).round() as i64).collect();
+    let wq: Vec<i64> = (0..3).map(|k| qi(width[k] / l)).collect();
     let line = json!({
         "e": "tess", "id": inp.id, "full": full_line, "n": n, "dim": inp.dim, "per": inp.per,
         "hasmask": mask.is_some(), "mask": active,
